@@ -57,10 +57,11 @@ class G:
             return ["ref", self.r.choice(hot)]
         if malformed and k < 0.7:
             return self.rude(self.malformed())
-        c = self.r.choice(["cold", "cold", "cold", "just", "from_iter", "range", "empty", "error", "never", "start", "defer", "fr_ok", "fr_err"])
+        c = self.r.choice(["cold", "cold", "cold", "just", "from_iter", "from_iter_lazy", "range", "empty", "error", "never", "start", "defer", "fr_ok", "fr_err"])
         if c == "cold": return self.cold(self.script())
         if c == "just": return ["just", self.val()]
         if c == "from_iter": return ["from_iter"] + [str(v) for v in self.items(4)]
+        if c == "from_iter_lazy": return ["from_iter_lazy"] + [str(v) for v in self.items(4)]
         if c == "range": return ["range", str(self.r.choice([0, 1, 5])), str(self.r.choice([0, 1, 3]))]
         if c == "empty": return ["empty"]
         if c == "error": return ["error", str(self.r.choice([5, 6, 7]))]
@@ -276,7 +277,7 @@ def fam_single_ops(g, prefix, scripts=None, ops=None, source="cold"):
 
 def fam_creation(g, prefix):
     out = []
-    srcs = [["just", "1"], ["from_iter"], ["from_iter", "1", "2", "3"], ["range", "0", "0"], ["range", "2", "3"], ["empty"], ["never"],
+    srcs = [["just", "1"], ["from_iter"], ["from_iter", "1", "2", "3"], ["from_iter_lazy"], ["from_iter_lazy", "1", "2", "3"], ["take", "2", ["from_iter_lazy", "4", "5", "6"]], ["range", "0", "0"], ["range", "2", "3"], ["empty"], ["never"],
             ["error", "5"], ["start", "4"], ["defer", ["from_iter", "1", "2"]], ["from_result_ok", "3"], ["from_result_err", "6"],
             ["take", "3", ["repeat", "7"]], ["take", "0", ["repeat", "7"]], ["first", ["repeat", "1"]],
             ["take_while", ["lt", "2"], ["from_iter", "0", "1", "2", "3"]], ["take", "2", ["range", "0", "5"]],
